@@ -94,3 +94,33 @@ Proof.
   destruct (rep_every_history_nt L cap budget fixed aid junk bid tbid h Hwf Hcap Hfx Hv Hn) as [offs R].
   exact (rep_element_layout L Hwf _ _ offs R i Hi).
 Qed.
+
+(* ---------- empty states (C18) ---------- *)
+Lemma rep_empty L v : wf_plist L = true -> Rep L v [] -> vsize L v = 0 /\ dend L v = 0.
+Proof.
+  intros Hwf [offs R].
+  pose proof (eo_length L _ _ _ _ (r_order _ _ _ _ R)) as Hl. destruct offs; [|discriminate].
+  split; [exact (rep_vsize L v [] [] R)|].
+  pose proof (r_tight _ _ _ _ R) as HT. cbn [elems_tight] in HT. destruct HT as [H|H]; [exact H|].
+  rewrite H. unfold first_align, align_if.
+  destruct (prev_tr L (length L) <? SA L); [|reflexivity].
+  apply align_up_id; [|apply Z.divide_0_r].
+  apply pow2_pos. apply SA_pow2; [apply wf_plist_Forall; exact Hwf|apply wf_plist_nonempty; exact Hwf].
+Qed.
+
+(* however a vector was emptied - never filled, pop_back / erase / clear after ANY history -
+   it has size 0 and data_end() = data_begin() (offset 0), and it represents the empty list:
+   every further valid history is covered by the refinement theorem again *)
+Theorem emptied_after_every_history : forall L cap budget fixed aid junk bid tbid h,
+  wf_plist L = true -> 0 <= cap -> Forall (fun c => 0 <= c) fixed ->
+  let v0 := fst (mkvec L cap budget fixed aid junk bid tbid) in
+  let s0 := {| s_cap := cap; s_elems := [] |} in
+  shist_valid L (fixed_counts L fixed) s0 h -> nt_hist_ok L s0 h ->
+  s_elems (srun s0 h) = [] ->
+  let v := vrun L junk v0 h in
+  Rep L v [] /\ vsize L v = 0 /\ dend L v = 0.
+Proof.
+  intros L cap budget fixed aid junk bid tbid h Hwf Hcap Hfx. cbv zeta. intros Hv Hn He.
+  pose proof (rep_every_history_nt L cap budget fixed aid junk bid tbid h Hwf Hcap Hfx Hv Hn) as R.
+  cbv zeta in R. rewrite He in R. split; [exact R|]. exact (rep_empty L _ Hwf R).
+Qed.
